@@ -69,13 +69,21 @@ INC_DIR = os.path.join(B.BUILD, "scratch", "c13")
 
 
 def gen_include():
-    incs = ["#define A 1\nfrom_inc A\n", "x\n#define F(a,b) a - b\n", '"str A" // c\n', "#ifdef A\nhas A\n#endif\n", ""]
+    incs = ["#define A 1\nfrom_inc A\n", "x\n#define F(a,b) a - b\n", '"str A" // c\n', "#ifdef A\nhas A\n#endif\n", "",
+            # 5: guarded common header; 6, 7: two headers that both include it (diamond); 8: a header meant to be included repeatedly
+            "#ifndef GUARD\n#define GUARD\ncommon A\n#endif\n", '#include "/inc5.hpp"\nfrom6\n', '#include "/inc5.hpp"\nfrom7\n', "tval T_VAL\n"]
     def g():
         buf = []
         for k, inc in enumerate(incs):
             for pre in ("", "#define A 5\n", "before A\n"):
                 for post in ("A F(1,2)\n", "after\n", '"A"\n'):
                     buf.append([pre + '#include "/inc%d.hpp"\n' % k + post, k])
+        # a file that was included and closed earlier in the same run is included again (diamond, plain repetition, template header)
+        for pre in ("", "#define A 5\n"):
+            buf.append([pre + '#include "/inc6.hpp"\n#include "/inc7.hpp"\nafter A\n', -1])
+            buf.append([pre + '#include "/inc0.hpp"\nmid\n#include "/inc0.hpp"\nafter A\n', -1])
+            buf.append([pre + '#include "/inc5.hpp"\n#include "/inc5.hpp"\n#include "/inc6.hpp"\nafter\n', -1])
+            buf.append([pre + '#define T_VAL 1\n#include "/inc8.hpp"\n#undef T_VAL\n#define T_VAL 2\n#include "/inc8.hpp"\nafter T_VAL\n', -1])
         yield buf
     return g, incs
 
